@@ -147,7 +147,7 @@ def struct_body(struct, env):
     name, descs, queues, free = struct
 
     def body(ctx):
-        ch = S.StructChooser(ctx, env['nsub'], False, queues, free, env['vmap'])
+        ch = S.DistinctStructChooser(ctx, env['nsub'], False, queues, free, env['vmap'])
         return judge(descs, env['nsub'], ch)
     return body
 
@@ -195,8 +195,6 @@ def bitmap_variants(tier):
                     pats = BM.patterns(n)
                     for p0, p1 in itertools.product(pats, repeat=2):
                         if (c0, p0) == (c1, p1):
-                            continue
-                        if tier == 'quick' and n == 2 and p0 != p1 and c0 == c1:
                             continue
                         d, qs, zeros = BM.construct(op, source, n, [p0, p1], 'delayed')
                         name = 'bDx|%d.%s.%d.%s/%s.c%d%d' % (op // 1000, source, n, ''.join(map(str, p0)),
